@@ -450,8 +450,7 @@ def crc_feed(ctx, inst, body):
     return out
 
 
-def check_token(ctx):
-    inst = "C10.token"
+def check_token(ctx, inst="C10.token"):
     a = ctx.fn("seq_token::nonzero_token", inst)
     b = ctx.fn("recovery::record_token", inst)
     if a is not None and b is not None:
